@@ -1166,6 +1166,7 @@ type FillInfo struct {
 	Source   ssa.Value // reader for ReadN, src for Copy
 	ErrCheck *ssa.If
 	Views    map[ssa.Value]bool
+	Sorted   bool // the buffer is sorted in place (sort.Strings, slices.Sort) after it was filled
 }
 
 // external callees known not to write through their slice arguments
@@ -1352,6 +1353,9 @@ func (tb *TB) fillInfo(ms ssa.Value, length ssa.Value) *FillInfo {
 						fi.Reason = "used as AEAD dst"
 					}
 				case nonWritingExt[name]:
+				case (name == "sort.Strings" || name == "slices.Sort" || strings.HasPrefix(name, "slices.Sort[")) && argIdx == 0:
+					// a permutation of what the buffer holds: the multiset of elements is unchanged
+					fi.Sorted = true
 				default:
 					if callee := staticCallee(c); callee != nil && callee.Blocks != nil && tb.p.inModule(callee) {
 						eff := tb.p.EffectsOf(callee)
@@ -1653,6 +1657,9 @@ func (tb *TB) makeSliceFrom(ms ssa.Value, length ssa.Value) *Term {
 	case "Zero":
 		return mk("Zero", "", ms, n)
 	case "Copy":
+		if fi.Sorted {
+			return mk("Call", "sort.Sorted", ms, mk("Copy", "", ms, tb.Term(fi.Source), n))
+		}
 		return mk("Copy", "", ms, tb.Term(fi.Source), n)
 	case "Append0":
 		var capT *Term
